@@ -1446,6 +1446,53 @@ fn g9_folds_and_families(kind: Kind, level: usize, f: &mut dyn FnMut(&[u8])) {
             nh += if nh < 70 { 1 } else { 7 };
         }
     }
+    // a special byte in a LATE header of a many-header message (state accumulated across lines,
+    // index- or count-dependent paths): two styles of earlier headers (short / long values)
+    {
+        let counts: &[usize] = if level == 0 { &[18] } else if level == 1 { &[17, 18, 33, 66] } else { &[9, 17, 18, 33, 34, 65, 66, 130, 260] };
+        for &nh in counts {
+            for style in 0..2usize {
+                let mut js: Vec<usize> = vec![0, nh / 2, nh - 1, 16, 17, 32, 33, 64, 65, 128];
+                js.retain(|j| *j < nh);
+                js.sort();
+                js.dedup();
+                for &j in &js {
+                    for slot in 0..5usize {
+                        for &v in BOUNDARY.iter() {
+                            let mut m = line.to_vec();
+                            for i in 0..nh {
+                                let name = format!("hdr{}", i);
+                                let val = if style == 0 { format!("v{}", i % 10) } else { format!("value-{}-{}", i, "x".repeat(20 + i % 5)) };
+                                let mut nb = name.into_bytes();
+                                let mut vb = val.into_bytes();
+                                if i == j {
+                                    match slot {
+                                        0 => nb[0] = v,
+                                        1 => {
+                                            let k = nb.len() / 2;
+                                            nb[k] = v
+                                        }
+                                        2 => vb[0] = v,
+                                        3 => vb[1] = v,
+                                        _ => {
+                                            let k = vb.len() - 1;
+                                            vb[k] = v
+                                        }
+                                    }
+                                }
+                                m.extend_from_slice(&nb);
+                                m.extend_from_slice(b": ");
+                                m.extend_from_slice(&vb);
+                                m.extend_from_slice(b"\r\n");
+                            }
+                            m.extend_from_slice(b"\r\n");
+                            f(&m);
+                        }
+                    }
+                }
+            }
+        }
+    }
     let sizes: &[usize] = if level == 0 { &[64] } else if level == 1 { &[64, 300, 1500] } else { &[64, 300, 1500, 6000] };
     for fam in 0..G7_FAMILIES {
         for &n in sizes {
